@@ -114,6 +114,11 @@ def absorb(res: core.Result, part: str, run_ref: str, out: Dict[str, Any], confi
             f"[{part}] nondeterminism: {out['replay_mismatches']} of {out['replayed']} audited executions "
             f"gave a different observation when re-run: {out['mismatch_examples'][:1]}"
         )
+    if out.get("fidelity_mismatch_tiefree"):
+        res.harness_errors.append(
+            f"[{part}] virtual loop disagrees with asyncio's own scheduling step on tie-free executions: "
+            f"{out['fidelity_mismatch_tiefree'][:1]}"
+        )
     if not out["errors"] and len(st.outcomes) < min_outcomes:
         res.harness_errors.append(f"[{part}] vacuous exploration: outcomes={dict(st.outcomes)}")
 
@@ -171,6 +176,9 @@ def absorb(res: core.Result, part: str, run_ref: str, out: Dict[str, Any], confi
         "wall_s": round(out["wall_s"], 2),
         "counters": dict(st.extra),
         "unconfirmed_violations_dropped": unconfirmed,
+        "stock_loop_audit": {"checked": out.get("fidelity_checked", 0), "tie_free": out.get("fidelity_tiefree", 0),
+                             "tie_free_mismatches": len(out.get("fidelity_mismatch_tiefree") or []),
+                             "mismatches_with_ties": out.get("fidelity_mismatch_with_ties", 0)},
     }
     res.parts[part] = p
     cov = res.coverage
@@ -186,6 +194,7 @@ def absorb(res: core.Result, part: str, run_ref: str, out: Dict[str, Any], confi
     cov.setdefault("parts", {})[part] = p
     cov["audit_replayed"] = cov.get("audit_replayed", 0) + out["replayed"]
     cov["audit_mismatches"] = cov.get("audit_mismatches", 0) + out["replay_mismatches"]
+    cov["stock_loop_audit_tie_free"] = cov.get("stock_loop_audit_tie_free", 0) + out.get("fidelity_tiefree", 0)
 
 
 def replay(args: Dict[str, Any]) -> Dict[str, Any]:
